@@ -18,7 +18,7 @@ from harness import common as C                      # noqa: E402
 from harness.props import pyfun_util as U            # noqa: E402
 
 SRC = "synthpkg/synth.py"
-REFUSED = ["K.bad_while", "K.bad_neg", "K.bad_call", "K.bad_step", "K.bad_fall", "K.bad_shadow"]
+REFUSED = ["K.bad_while", "K.bad_neg", "K.bad_call", "K.bad_step", "K.bad_fall", "K.bad_shadow", "K.bad_rebound", "K.bad_helper"]
 
 
 def _b(rng, n):
@@ -37,6 +37,9 @@ MOD = types.SimpleNamespace(TITLE="synthetic functions (translator self-test)", 
      "gen": lambda rng: (lambda n: {"data": _b(rng, n), "key": _b(rng, n + rng.randrange(0, 3)), "m": rng.randrange(0, 7),
                                     "v": rng.choice([0, 1, 255, 65536, 2 ** 32 - 1, rng.randrange(0, 2 ** 32)])})(rng.randrange(2, 12)),
      "live": "def live(a):\n    return MOD.K.f3(None, a['data'], a['key'], a['m'], a['v'])\n"},
+    {"path": SRC, "qualname": "K.f4", "spec": {"name": "f4", "inputs": [["data", "data", "bytes"], ["n", "n", "nat"]]},
+     "gen": lambda rng: {"data": _b(rng, rng.randrange(0, 16)), "n": rng.randrange(0, 60)},
+     "live": "def live(a):\n    return MOD.K.f4(MOD.K(), a['data'], a['n'])\n"},
 ])
 
 
